@@ -166,6 +166,13 @@ def content(kind, register="mid", channel=1, velocity=64):
     elif kind == "X":
         # chord whose notes differ in channel and velocity (the lowest note is the "first" note)
         return [[nm, o, (channel + i) % 16, min(127, velocity + i)] for i, (nm, o) in enumerate(ch)]
+    elif kind == "Y":
+        # chord whose notes sound on channels A, B, A (from the lowest note up)
+        return [[nm, o, (channel + (5 if i == 1 else 0)) % 16, velocity] for i, (nm, o) in enumerate(ch)]
+    elif kind == "Z":
+        # four notes on channels A, A, B, A
+        four = list(ch) + [(ch[0][0], ch[0][1] + 1)] if ch[0][1] < 9 else list(ch) + [(m[0][0], m[0][1])]
+        return [[nm, o, (channel + (7 if i == 2 else 0)) % 16, velocity] for i, (nm, o) in enumerate(four)]
     else:
         raise engine.HarnessError("unknown content kind %r" % kind)
     return [[nm, o, channel, velocity] for (nm, o) in src]
@@ -192,6 +199,7 @@ PATTERNS = [
     [("R", 2), ("X", 4), ("R", 4)],                         # 9 leading + trailing rest, mixed chord
     [("E", 4), ("N", "4."), ("M", 8), ("R", 8), ("N", 8)],  # 10 empty container, dotted value
     [("N", 1)],                                             # 11 whole note
+    [("Y", 4), ("Z", 4), ("R", 4), ("Y", 4)],               # 12 chords whose notes alternate between two channels (A B A / A A B A)
 ]
 # the same zoo with whole-tick values only (C17: "values that correspond to whole tick counts")
 PATTERNS_WHOLE = [list(p) for p in PATTERNS]
